@@ -461,6 +461,33 @@ def run_shard(desc, tier):
         for skind, n, raise_at in stream_recipes():
             apps = {i: (lambda i=i: (lambda *a: build_stream(i, skind, n, raise_at)(*a)))() for i in ("wsgi", "asgi")}
             compare(r, f"stream:{skind} n={n} raise_at={raise_at}", apps, SV.AReq(), "GET", sse=skind == "sse")
+        # constructor arguments of the streaming classes: no headers at all (several objects one after another), headers that
+        # contain a Content-Type of their own (any case), status, explicit content_type / charset, and HEAD
+        def items(i, skind):
+            data = [b"a", b"bb"] if skind == "stream" else [{"data": "x"}, {"event": "e", "data": "y"}]
+            if i == "wsgi":
+                return iter(list(data))
+
+            async def g():
+                for d in data:
+                    yield d
+            return g()
+        variants = {
+            "stream:no-headers": lambda m, it: m.StreamResponse(it),
+            "stream:own-content-type": lambda m, it: m.StreamResponse(it, 200, {"Content-Type": "text/csv", "x-a": "1"}),
+            "stream:own-content-type-lower": lambda m, it: m.StreamResponse(it, 201, {"content-type": "text/csv; charset=latin-1"}),
+            "stream:content_type-arg": lambda m, it: m.StreamResponse(it, 200, {"CONTENT-TYPE": "text/x-from-headers"}, content_type="text/x-from-argument"),
+            "sse:no-headers": lambda m, it: m.SendEventResponse(it, ping_interval=30),
+            "sse:no-headers-gbk": lambda m, it: m.SendEventResponse(it, ping_interval=30, charset="gbk"),
+            "sse:own-headers": lambda m, it: m.SendEventResponse(it, 200, {"Cache-Control": "no-store", "Content-Type": "text/event-stream; x=1"}, ping_interval=30),
+            "sse:status": lambda m, it: m.SendEventResponse(it, 203, None, ping_interval=30, charset="latin-1"),
+        }
+        for rounds in range(3):  # the same constructions again and again in one process
+            for vname, mk in variants.items():
+                skind = vname.split(":")[0]
+                for method in ("GET", "HEAD"):
+                    apps = {i: (lambda i=i: (lambda *a: mk(mod(i), items(i, skind))(*a)))() for i in ("wsgi", "asgi")}
+                    compare(r, f"stream:{vname}", apps, SV.AReq(method=method), f"{method} (construction round {rounds})", sse=skind == "sse")
         r.sample({"recipe": "sse n=3", "sanctioned": "connection header removed"})
     elif kind == "files":
         t = Tree()
